@@ -643,6 +643,110 @@ func numberSweepFamily(dom Domain) Family {
 	}
 }
 
+// alignmentFamily: one glyph with a long charstring (well above the 512-byte
+// blocks writers and ciphers like to work in), preceded in the encrypted part
+// by two filler glyphs whose name lengths shift it to every one of 512
+// consecutive byte positions.
+func alignmentFamily() Family {
+	return Family{
+		Name: "long-charstring-at-every-alignment",
+		N:    512 * 2,
+		Rule: "a glyph with a 260-segment (about 1 KiB of charstring) or 700-segment outline, preceded in the file by two glyphs named a…a (1..128 letters) and b…b (1, 129, 257 or 385 letters): the long charstring starts at 512 consecutive byte offsets of the encrypted part",
+		Build: func(i int) *type1.Font {
+			shift, long := i%512, i/512
+			f := Base()
+			f.Encoding = nil
+			f.Glyphs = map[string]*type1.Glyph{".notdef": {WidthX: 250}}
+			n1, n2 := 1+shift%128, 1+128*(shift/128)
+			for _, nm := range []string{strings.Repeat("a", n1), strings.Repeat("b", n2)} {
+				g := &type1.Glyph{WidthX: 300}
+				g.MoveTo(1, 2)
+				g.LineTo(30, 40)
+				g.ClosePath()
+				f.Glyphs[nm] = g
+			}
+			f.Glyphs["zlong"] = &type1.Glyph{WidthX: 700, Cmds: PathOfLength([]int{260, 700}[long], 2+long)}
+			return f
+		},
+	}
+}
+
+// longInfoStringFamily: strings beyond every line-length convention (255 bytes
+// of DSC, 80 columns), with a character that needs escaping at every position
+// around the multiples of 250, 255, 256 and 512.
+func longInfoStringFamily() Family {
+	specials := []string{"\\", "(", ")", "\r", "\n", "()", "\\("}
+	var positions []int
+	for _, b := range []int{78, 250, 255, 500, 510, 765} {
+		for p := b - 5; p <= b+3; p++ {
+			positions = append(positions, p)
+		}
+	}
+	return Family{
+		Name: "long-info-strings",
+		N:    len(specials) * len(positions) * 2,
+		Rule: fmt.Sprintf("Notice / FullName of 800 bytes with one of %q at every position within -5..+3 of 78, 250, 255, 500, 510, 765", specials),
+		Build: func(i int) *type1.Font {
+			d := radix(i, len(specials), len(positions), 2)
+			pos := positions[d[1]]
+			str := strings.Repeat("x", pos) + specials[d[0]] + strings.Repeat("y", 800-pos)
+			f := Base()
+			SetInfoString(f, []string{"Notice", "FullName"}[d[2]], str)
+			return f
+		},
+	}
+}
+
+// nearAxisFamily: see cmd/c20 (same geometry through the public writer): lines
+// and curve tangents that are almost parallel to an axis, with the small
+// component below, around and above every tolerance an encoder might use.
+func nearAxisFamily() Family {
+	ds := []float64{0}
+	for _, v := range []float64{1e-7, 2e-6, 0.001, 0.004, 0.0046, 0.0048, 0.0051, 0.006, 0.0075, 0.009, 0.0094, 0.01, 0.03} {
+		ds = append(ds, v, -v)
+	}
+	nd := len(ds)
+	return Family{
+		Name: "near-axis-segments-and-tangents",
+		N:    4 * nd * nd,
+		Rule: fmt.Sprintf("glyph A = moveto, nearly horizontal line (dy = da), curve whose start tangent is nearly horizontal|vertical (small component da) and whose end tangent is nearly horizontal|vertical (small component db), nearly vertical line (dx = db), closepath, nearly vertical moveto (dx = da), nearly horizontal line (dy = db), line, closepath; da, db from %d values 0, +-1e-7 … +-0.03 around the tolerances 1e-6, 1/214, 0.005, 1/107, 0.01", nd),
+		Build: func(i int) *type1.Font {
+			d := radix(i, nd, nd, 2, 2)
+			da, db := ds[d[0]], ds[d[1]]
+			f := Base()
+			g := f.Glyphs["A"]
+			g.Cmds = nil
+			g.HStem, g.VStem = nil, nil
+			x, y := 100.0, 50.0
+			g.MoveTo(x, y)
+			x, y = x+20, y+da
+			g.LineTo(x, y)
+			tangent := func(kind int, small, long float64) (float64, float64) {
+				if kind == 0 {
+					return long, small
+				}
+				return small, long
+			}
+			d1x, d1y := tangent(d[2], da, 10)
+			d3x, d3y := tangent(d[3], db, 12)
+			x1, y1 := x+d1x, y+d1y
+			x2, y2 := x1+20, y1+25
+			x3, y3 := x2+d3x, y2+d3y
+			g.CurveTo(x1, y1, x2, y2, x3, y3)
+			x, y = x3+db, y3-15
+			g.LineTo(x, y)
+			g.ClosePath()
+			x, y = x+da, y+30
+			g.MoveTo(x, y)
+			x, y = x-9, y+db
+			g.LineTo(x, y)
+			g.LineTo(x+5, y+5)
+			g.ClosePath()
+			return f
+		},
+	}
+}
+
 func infoNumberFamily() Family {
 	italic := []float64{0, -12.5, 1e-7, 123456789, 1e21}
 	upos := []float64{0, -100, -75.5}
@@ -878,6 +982,9 @@ func Families(tier string, dom Domain) []Family {
 		curveFormsFamily(),
 		bigFontFamily(),
 		numberSweepFamily(dom),
+		alignmentFamily(),
+		longInfoStringFamily(),
+		nearAxisFamily(),
 	}
 	if tier == "thorough" {
 		fams[3] = pathLengthFamily(120)
